@@ -679,10 +679,19 @@ def gen_history_arrivals(rng, n=3, rename_prob=0.8):
                 do("touch", o + ("s", "g"))
             hist.append(["drain"])
             do("rename", o, a)
+        elif rng.random() < 0.3:
+            o = ("O", next(fresh))
+            do("mkdir", o)
+            hist.append(["drain"])
+            do("rename", o, a)               # an empty directory moved in
         else:
             do("mkdir", a)
+        renamed = False
         if rng.random() < rename_prob:
-            do("rename", a, b)               # right after it arrived
+            renamed = do("rename", a, b)     # right after it arrived
+        cur = b if renamed else a
+        if rng.random() < 0.25 and not sh.children(tuple(cur)):
+            do("rmdir", cur)                 # ... and gone again before anybody looked (the re-watch fails with ENOENT)
         hist.append(["drain"])
         if rng.random() < 0.5:
             d = b if tuple(b) in sh.ent else a
